@@ -57,10 +57,11 @@ static void all_queries(ITree<P> &tree, const std::vector<INode<P> *> &live, int
 }
 
 // ------------------------------------------------------------------ exhaustive over endpoint universe {0..U-1}
-static void exhaustive(const char *mode, int U, int len, uint64_t stride) {
+// `shift`: every endpoint and query bound is moved by it (negative: the universe straddles or lies below zero)
+static void exhaustive(const char *mode, int U, int len, uint64_t stride, int shift = 0) {
 	if(!want_mode(mode)) return;
 	std::vector<std::pair<int, int>> ivs;
-	for(int a = 0; a < U; a++) for(int b = a; b < U; b++) ivs.push_back({a, b});
+	for(int a = 0; a < U; a++) for(int b = a; b < U; b++) ivs.push_back({a + shift, b + shift});
 	uint64_t A = ivs.size(), total = 1;
 	for(int i = 0; i < len; i++) total *= A;
 	using P = int;
@@ -80,35 +81,35 @@ static void exhaustive(const char *mode, int U, int len, uint64_t stride) {
 				g_trace += strf("ins[%d,%d]#%d ", iv.first, iv.second, i);
 				tree.insert(&pool[i]); live.push_back(&pool[i]);
 			}
-			all_queries<P>(tree, live, -1, U);
+			all_queries<P>(tree, live, -1 + shift, U + shift);
 			// every single removal followed by all queries again, then restore
 			for(int i = 0; i < len && !g_bad; i++) {
 				g_trace += strf("rem#%d ", i);
 				tree.remove(&pool[i]);
 				std::vector<INode<P> *> l2; for(auto *n : live) if(n != &pool[i]) l2.push_back(n);
-				all_queries<P>(tree, l2, -1, U);
+				all_queries<P>(tree, l2, -1 + shift, U + shift);
 				g_trace += strf("reins#%d ", i);
 				tree.insert(&pool[i]);
-				all_queries<P>(tree, live, 0, U - 1);
+				all_queries<P>(tree, live, shift, U - 1 + shift);
 			}
 			// drain in insertion order with queries in between
 			for(int i = 0; i < len && !g_bad; i++) {
 				g_trace += strf("rem#%d ", i);
 				tree.remove(&pool[i]); live.erase(live.begin());
-				all_queries<P>(tree, live, 0, U - 1);
+				all_queries<P>(tree, live, shift, U - 1 + shift);
 			}
 		});
 		(void)ok;
 		note_distinct(mix(hash_str(mode), x));
 		count("exhaustive_histories");
 	}
-	rec.notes[mode] = strf("sequences of %d closed intervals over endpoints 0..%d (%llu total, stride %llu): all query pairs in -1..%d + one-argument form, after building, after every single removal and re-insertion",
-		len, U - 1, (unsigned long long)total, (unsigned long long)stride, U);
+	rec.notes[mode] = strf("sequences of %d closed intervals over endpoints %d..%d (%llu total, stride %llu): all query pairs in %d..%d + one-argument form, after building, after every single removal and re-insertion",
+		len, shift, U - 1 + shift, (unsigned long long)total, (unsigned long long)stride, -1 + shift, U + shift);
 }
 
 // ------------------------------------------------------------------ random
 template<typename P>
-static void random_histories(const char *mode, uint64_t ncases, size_t maxn, unsigned nops, unsigned nqueries) {
+static void random_histories(const char *mode, uint64_t ncases, size_t maxn, unsigned nops, unsigned nqueries, bool negative = false) {
 	if(!want_mode(mode)) return;
 	Rng sr(derive_seed(mode));
 	for(uint64_t c = 0; c < ncases; c++) {
@@ -120,7 +121,10 @@ static void random_histories(const char *mode, uint64_t ncases, size_t maxn, uns
 		size_t N = 2 + r.below(maxn);
 		int gen = r.below(5);
 		uint64_t span = gen == 4 ? ~0ull >> (std::is_signed_v<P> ? 34 : 1) : (uint64_t)(10 + r.below(N * 3));
-		case_detail("N=%zu gen=%d span=%llu seed=%llu", N, gen, (unsigned long long)span, (unsigned long long)cs);
+		// signed point types: the whole universe is moved so that it lies below zero, straddles it, or ends exactly at -1 / 0
+		int64_t off = 0;
+		if(negative && std::is_signed_v<P>) { if(gen == 4) span = 1000000; switch(r.below(4)) { case 0: off = (int64_t)span * 2 + 7; break; case 1: off = (int64_t)span / 2; break; case 2: off = (int64_t)span + 1; break; default: off = (int64_t)span; break; } }
+		case_detail("N=%zu gen=%d span=%llu offset=-%lld seed=%llu", N, gen, (unsigned long long)span, (long long)off, (unsigned long long)cs);
 		std::vector<INode<P>> pool(N);
 		std::vector<INode<P> *> out, live;
 		for(size_t i = 0; i < N; i++) {
@@ -134,6 +138,7 @@ static void random_histories(const char *mode, uint64_t ncases, size_t maxn, uns
 			}
 			if(r.chance(1, 8)) b = a; // points
 			pool[i].lo = (P)a; pool[i].hi = (P)b; pool[i].id = (int)i;
+			if(off) { pool[i].lo = (P)((int64_t)a - off); pool[i].hi = (P)((int64_t)b - off); }
 			out.push_back(&pool[i]);
 		}
 		bool ok = guarded("C07", [&] {
@@ -147,11 +152,11 @@ static void random_histories(const char *mode, uint64_t ncases, size_t maxn, uns
 						case 0: lb = n1->hi; ub = n1->hi; break;            // touching upper end
 						case 1: lb = n1->lo; ub = n1->lo; break;            // touching lower end
 						case 2: lb = n1->hi; ub = (P)(n1->hi + (P)r.below(5)); break;
-						case 3: ub = n1->lo; lb = (P)(n1->lo >= (P)3 ? n1->lo - (P)r.below(3) : n1->lo); break;
+						case 3: ub = n1->lo; lb = (P)((n1->lo >= (P)3 || off) ? n1->lo - (P)r.below(3) : n1->lo); break;
 						case 4: lb = n1->lo; ub = n1->hi; break;
 						default: lb = (P)(n1->hi + 1); ub = (P)(n1->hi + 1 + (P)r.below(4)); if(ub < lb) { lb = n1->hi; ub = n1->hi; } break; // just after
 						}
-					} else { uint64_t a = r.below(span + 5), b = a + r.below(span / 3 + 2); lb = (P)a; ub = (P)b; if(ub < lb) ub = lb; }
+					} else { uint64_t a = r.below(span + 5), b = a + r.below(span / 3 + 2); lb = (P)((int64_t)a - off); ub = (P)((int64_t)b - off); if(ub < lb) ub = lb; }
 					query<P>(tree, live, lb, ub, lb == ub && r.chance(1, 2));
 				}
 			};
@@ -187,7 +192,12 @@ int main(int argc, char **argv) {
 	exhaustive("exh:len3", 6, 3, 1);
 	exhaustive("exh:len4", 6, 4, t ? 1 : 13);   // quick: every 13th sequence of length 4; thorough: all 194481
 	if(t) exhaustive("exh:len5", 5, 5, 7);
+	exhaustive("exh:len3-negative", 6, 3, 1, -6);  // endpoints -6..-1
+	exhaustive("exh:len3-straddle", 6, 3, 1, -3);  // endpoints -3..2
+	exhaustive("exh:len4-straddle", 6, 4, t ? 1 : 17, -4);
 	random_histories<int>("rand:int", scaled(120, 3000), 200, 300, 200);
+	random_histories<int>("rand:int-negative", scaled(120, 3000), 200, 300, 200, true);
+	random_histories<int64_t>("rand:i64-negative", scaled(60, 1500), 200, 300, 200, true);
 	random_histories<uint64_t>("rand:u64", scaled(120, 3000), 200, 300, 200);
 	random_histories<int>("rand:int-large", scaled(4, 100), t ? 5000 : 1500, t ? 12000 : 3000, t ? 5000 : 600);
 	random_histories<uint64_t>("rand:u64-large", scaled(4, 100), t ? 5000 : 1500, t ? 12000 : 3000, t ? 5000 : 600);
